@@ -1,4 +1,5 @@
 import IastModel
+import IastModel.MapChecks
 /-
   Line-protocol driver.  One JSON record per stdin line (written by the Rust harness, which ran the
   real rewriter on the same request), one JSON verdict per stdout line:
@@ -166,6 +167,187 @@ def processRewrite (rec : J) : Verdict := Id.run do
         v := v.addCorr "metrics" (.obj [("model", jstr (reprStr m)), ("real", rm)])
     return v
 
+/-- C05: option defaulting and prologue generation, real `to_config` vs the model -/
+def processConfig (rec : J) : Verdict := Id.run do
+  let mut v : Verdict := {}
+  let real := rec.getD "config"
+  let raw := (parseRawConfig (rec.getD "cfg")).getD RawConfig.default
+  let cfg := toConfig raw (real.getD "localVarPrefix").strD
+  let explicitPrefix := raw.localVarPrefix.isSome
+  v := v.addStat "explicit_prefix" (.bool explicitPrefix)
+  let realMethods := (real.getD "methods").arrD.map fun m =>
+    ((m.getD "src").strD, (m.getD "dst").strD, (m.getD "operator").bool?.getD false, (m.getD "allowedWithoutCallee").bool?.getD false)
+  let modelMethods := cfg.methods.map fun m => (m.src, m.dst, m.operator, m.allowedWithoutCallee)
+  if realMethods != modelMethods then
+    v := v.addCorr "config" (.obj [("field", jstr "methods"), ("model", jstr (reprStr modelMethods)), ("real", real.getD "methods")])
+  if (real.getD "chainSourceMap").bool? != some cfg.chainSourceMap || (real.getD "comments").bool? != some cfg.printComments
+      || (real.getD "literals").bool? != some cfg.literals || (real.getD "verbosity").strD != cfg.verbosity.name then
+    v := v.addCorr "config" (.obj [("field", jstr "options"), ("model", jstr (reprStr cfg)), ("real", real)])
+  if (real.getD "plusOperator").str? != cfg.plusOperator.map (·.dst) || (real.getD "tplOperator").str? != cfg.tplOperator.map (·.dst) then
+    v := v.addCorr "config" (.obj [("field", jstr "operators"), ("real", real)])
+  -- documented default of the prefix: six lowercase letters
+  if !explicitPrefix then
+    let p := (real.getD "localVarPrefix").strD
+    if p.length != Generated.rndPrefixLength || !(p.toList.all fun c => Generated.rndAlphabet.toList.contains c) then
+      v := v.addCheck "C05:random-prefix-not-six-lowercase-letters" (jstr p)
+  -- the prologue: real parse of the spliced template vs the model's tree (when every dst is an identifier name)
+  let pfx := tempPrefix cfg.localVarPrefix
+  let realPro := (real.getD "prefixStmts").arrD.map (fromJ pfx "Script" "body")
+  let validName (s : String) : Bool :=
+    !s.isEmpty && s.toList.all (fun c => c.isAlphanum || c == '_' || c == '$') && !(s.toList.head!.isDigit)
+  if cfg.dsts.all validName then
+    if !(Node.beqL realPro (prologue cfg.dsts)) then
+      let d := Node.diff pfx "" (.arr (prologue cfg.dsts)) (.arr realPro)
+      v := v.addCorr "config" (.obj [("field", jstr "prologue"), ("diff", jstr (reprStr d))])
+    -- every configured name gets a pass-through entry, nothing else
+    let keys := (Node.collect (fun k => match k with | .other "KeyValueProperty" .. => true | _ => false) (.arr realPro)).filterMap fun k =>
+      match k with
+      | .other _ _ _ [.pname nm _, .ident (.user "noop") _] => some nm
+      | _ => none
+    if keys != cfg.dsts then
+      v := v.addCheck "C05:prologue-entries-differ-from-configured-names" (jstr (reprStr keys))
+  return v
+
+def trailerMarker : String := "\n//# sourceMappingURL=data:application/json;base64,"
+
+/-- split `content` into the printed code and the decoded inline map of the trailer -/
+def splitTrailer (content : String) : Option (String × String) :=
+  match content.splitOn trailerMarker with
+  | [] => none
+  | [_] => none
+  | parts =>
+    let b64 := parts.getLast!
+    let body := trailerMarker.intercalate parts.dropLast
+    match b64decode b64 with
+    | some bytes => (String.fromUTF8? bytes).map fun m => (body, m)
+    | none => none
+
+def rtokJson (t : RTok) : J :=
+  .arr [jnat t.genLine, jnat t.genCol,
+        match t.src with | some (s, l, c) => .arr [jstr s, jnat l, jnat c] | none => .null,
+        match t.name with | some n => jstr n | none => .null]
+
+/-- C09: the embedded map of a modified file -/
+def processMaps (rec : J) : Verdict := Id.run do
+  let mut v : Verdict := {}
+  let cfg := configOfRecord rec
+  let pfx := tempPrefix cfg.localVarPrefix
+  if (rec.getD "outcome").strD != "ok" || (rec.getD "status").strD != "Modified" then
+    return v.addStat "class" (jstr "not-modified")
+  let content := (rec.getD "content").strD
+  let mapStr := (rec.getD "map").strD
+  match splitTrailer content with
+  | none => return v.addCheck "C09:no-decodable-inline-map-trailer" (jstr "")
+  | some (body, finalMap) =>
+    match decodeMapJson mapStr with
+    | .error e => return v.addCheck "C09:emitted-map-does-not-decode" (jstr e)
+    | .ok dm =>
+      -- tie: the verified decoder and the sourcemap crate read the same tokens
+      if dm.tokens != crateTokens (rec.getD "map_tokens") then
+        v := v.addCorr "map" (jstr "verified decoder and sourcemap crate disagree on the token list")
+      v := v.addStat "tokens" (jnat dm.tokens.length)
+      if !cfg.chainSourceMap || (rec.getD "orig_map").isNull then
+        if finalMap != mapStr then
+          v := v.addCheck "C09:trailer-is-not-the-rewrite-map" (jstr "")
+      match programFromJ pfx (rec.getD "in_ast"), programFromJ pfx (rec.getD "out_mem"),
+            programFromJ pfx ((rec.getD "out_text").getD "ast") true with
+      | .ok inp, .ok outMem, .ok outText =>
+        -- the printed code the map was produced for is `code`; `content` differs from it only by comment removal
+        let code := (rec.getD "code").strD
+        let mi : MapInput := { file := (rec.getD "file").strD, src := stripBom (rec.getD "src").strD.toUTF8,
+                               content := code.toUTF8, inp := inp, outMem := outMem, outText := outText, map := dm }
+        let _ := body
+        for (cls, d) in checkC09 mi do
+          v := v.addCheck ("C09:" ++ cls) (jstr d)
+      | _, _, _ => v := v.addCorr "convert-in" (jstr "tree conversion failed in maps mode")
+      return v
+
+/-- C10: chaining and trailer / comment handling -/
+def processChain (rec : J) : Verdict := Id.run do
+  let mut v : Verdict := {}
+  let cfg := configOfRecord rec
+  let pfx := tempPrefix cfg.localVarPrefix
+  if (rec.getD "outcome").strD != "ok" || (rec.getD "status").strD != "Modified" then
+    return v.addStat "class" (jstr "not-modified")
+  let content := (rec.getD "content").strD
+  let mapStr := (rec.getD "map").strD
+  let code := (rec.getD "code").strD
+  let origJ := rec.getD "orig_map"
+  v := v.addStat "has_orig" (.bool !origJ.isNull)
+  match splitTrailer content with
+  | none => return v.addCheck "C10:no-decodable-inline-map-trailer" (jstr "")
+  | some (body, finalMap) =>
+    -- exactly one trailer, at the very end
+    let lines := content.splitOn "\n"
+    let refs := lines.filter fun l => (l.trimAsciiStart.toString.startsWith "//# sourceMappingURL=") ||
+      (l.splitOn "/*# sourceMappingURL=").length > 1 || (l.trimAsciiStart.toString.startsWith "//@ sourceMappingURL=")
+    if refs.length != 1 then
+      v := v.addCheck "C10:not-exactly-one-sourceMappingURL-comment" (jnat refs.length)
+    match decodeMapJson mapStr, decodeMapJson finalMap with
+    | .ok rw, .ok fin =>
+      v := v.addStat "tokens" (jnat fin.tokens.length)
+      if cfg.chainSourceMap && !origJ.isNull then
+        let orig := crateTokens origJ
+        let expected := rChain rw.tokens orig
+        if fin.tokens != expected then
+          let firstDiff := ((fin.tokens.zip expected).find? fun p => p.1 != p.2)
+          v := v.addCorr "chain" (.obj [("real", match firstDiff with | some p => rtokJson p.1 | none => jnat fin.tokens.length),
+                                        ("model", match firstDiff with | some p => rtokJson p.2 | none => jnat expected.length)])
+        -- composition, token by token and independently of the model of chaining: two-step lookup
+        for t in fin.tokens do
+          let two := (rtokLookup rw.tokens t.genLine t.genCol).bind fun r =>
+            match r.src with
+            | some (_, l, c) => rtokLookup orig l c
+            | none => none
+          match two with
+          | some o =>
+            if t.src != o.src || t.name != o.name then
+              v := v.addCheck "C10:chained-token-differs-from-two-step-lookup"
+                (.obj [("chained", rtokJson t), ("two_step", rtokJson o)])
+              break
+          | none =>
+            v := v.addCheck "C10:chained-token-without-two-step-counterpart" (rtokJson t)
+            break
+      else
+        if finalMap != mapStr then
+          v := v.addCheck "C10:plain-rewrite-map-not-emitted-when-no-chaining-applies" (jstr "")
+    | .error e, _ => v := v.addCheck "C10:rewrite-map-does-not-decode" (jstr e)
+    | _, .error e => v := v.addCheck "C10:final-map-does-not-decode" (jstr e)
+    -- the program text is not altered by the comment handling: same tree before and after
+    match programFromJ pfx ((rec.getD "out_text").getD "ast") true, programFromJ pfx ((rec.getD "code_text").getD "ast") true with
+    | .ok a, .ok b =>
+      if !(Node.normText a == Node.normText b) then
+        let d := Node.diff pfx "" (Node.normText a) (Node.normText b)
+        v := v.addCheck "C10:comment-removal-altered-the-program"
+          (jstr (match d with | some (p, x, y) => s!"at {p}: content={x} printed={y}" | none => ""))
+    | _, _ =>
+      if !((rec.getD "out_text").getD "ast").isNull || !((rec.getD "code_text").getD "ast").isNull then
+        v := v.addCheck "C10:content-or-printed-code-does-not-parse" (jstr "")
+    -- the superseded comment is gone when comments are printed
+    if cfg.printComments then
+      match (rec.getD "orig_comment").str? with
+      | some c =>
+        if (body.splitOn ("//" ++ c)).length > 1 && !((rec.getD "src").strD.splitOn ("\"//" ++ c)).length > 1 then
+          v := v.addCheck "C10:superseded-comment-still-present" (jstr c)
+      | none => pure ()
+    return v
+
+/-- C11: model of `findEntry` + `getPathAndLine` (1-based in, 1-based out) on a raw map -/
+def processJs (rec : J) : J :=
+  match decodeMapJson (rec.getD "map").strD with
+  | .error e => .obj [("id", rec.getD "id"), ("error", jstr e)]
+  | .ok dm =>
+    let answers := (rec.getD "positions").arrD.map fun p =>
+      match p with
+      | .arr [l, c] =>
+        if c.natD == 0 then J.null   -- column 0 is below the first column: class of its own
+        else
+          match rtokLookup dm.tokens (l.natD - 1) (c.natD - 1) with
+          | some { src := some (s, ol, oc), .. } => .arr [jstr s, jnat ol, jnat oc]
+          | _ => J.null
+      | _ => J.null
+    .obj [("id", rec.getD "id"), ("model", .arr answers)]
+
 def verdictJson (id : J) (v : Verdict) : J :=
   .obj [("id", id),
         ("corr", if v.corr.isEmpty then jstr "ok" else .obj v.corr),
@@ -189,6 +371,14 @@ partial def loop (h : IO.FS.Stream) (out : IO.FS.Stream) : IO Unit := do
         match programFromJ (tempPrefix cfg.localVarPrefix) (rec.getD "in_ast"), programFromJ (tempPrefix cfg.localVarPrefix) (rec.getD "out_mem") with
         | .ok a, .ok b => out.putStrLn (J.render (.obj [("n", jnat (a.size + b.size))]))
         | _, _ => out.putStrLn "{}"
+      else if mode == "js" then
+        out.putStrLn (J.render (processJs rec))
+      else if mode == "maps" then
+        out.putStrLn (J.render (verdictJson (rec.getD "id") (processMaps rec)))
+      else if mode == "chain" then
+        out.putStrLn (J.render (verdictJson (rec.getD "id") (processChain rec)))
+      else if mode == "config" then
+        out.putStrLn (J.render (verdictJson (rec.getD "id") (processConfig rec)))
       else
         let v := processRewrite rec
         out.putStrLn (J.render (verdictJson (rec.getD "id") v))
